@@ -369,6 +369,35 @@ Proof. unfold usw_write. destruct c; [intros [= <- <- <-]; now left|].
   destruct inp as [|a t]; [intros [= <- <- <-]; now left|].
   destruct (Z.leb _ _); intros [= <- <- <-]; [right|left]; auto. Qed.
 
+(* ---- the UDP relay in front of the Stream interface (design finding F15) ------------- *)
+(* what the property demands of the relay: a datagram that fits one frame is forwarded whole *)
+Definition relay_full : Prop := forall d,
+  (0 < Z.of_nat (length d) <= max_unit 16401)%Z ->
+  route_udp_up (max_unit 16401) d = (Z.of_nat (length d), SwNil, [d]).
+
+(* false: 8193 bytes fit a frame (16132) but not RouteUDP's read buffer *)
+Lemma relay_refuted : ~ relay_full.
+Proof.
+  intros H. specialize (H (repeat 7%N (N.to_nat 8193))).
+  rewrite repeat_length in H.
+  assert (Hl : (0 < Z.of_nat (N.to_nat 8193) <= max_unit 16401)%Z) by (vm_compute; split; [reflexivity|discriminate]).
+  specialize (H Hl). vm_compute in H. discriminate H.
+Qed.
+
+(* what does hold: up to the relay buffer the datagram is forwarded whole; above it exactly its
+   first 8192 bytes are forwarded as if they were the datagram (never refused, never split) *)
+Lemma relay_partial maxu d : (Z.of_N relay_buf <= maxu)%Z ->
+  ((0 < N.of_nat (length d) <= relay_buf)%N ->
+     route_udp_up maxu d = (Z.of_nat (length d), SwNil, [d]))
+  /\ ((relay_buf < N.of_nat (length d))%N ->
+     route_udp_up maxu d = (Z.of_N relay_buf, SwNil, [firstn (N.to_nat relay_buf) d])).
+Proof.
+  intros Hm. unfold route_udp_up. split; intros Hd.
+  - rewrite firstn_all2 by lia. apply fitting_one_frame. lia.
+  - assert (Hl : length (firstn (N.to_nat relay_buf) d) = N.to_nat relay_buf) by (apply firstn_length_le; lia).
+    rewrite fitting_one_frame; rewrite Hl; [f_equal; f_equal; lia|unfold relay_buf in *; lia].
+Qed.
+
 (* ---------------------------------------------------------------------------------- *)
 (* Receive side of an unordered session: per-stream isolation *)
 Local Open Scope N_scope.
